@@ -1,6 +1,7 @@
 package main
 
 import (
+	"fmt"
 	"go/token"
 	"strings"
 
@@ -146,6 +147,39 @@ func propC08(c *Check) {
 			}
 		}
 		c.MustPass(d, Gate{Name: "validateAggregatedSigners(js.Signers) != nil => reject", RejectOnTrue: true, Cond: BinEither(token.NEQ, Call("common.validateAggregatedSigners"), ConstNil)}, acc, "returning an aggregated signature (the encoder panics on the same predicate)")
+	}
+	// builder / parser count-limit agreement for pre-commitment lists: every count the builder is
+	// willing to emit must be admitted by the parser (otherwise a built message does not parse back)
+	maxAdmitted := func(fn *ssa.Function, lhs VM) (int64, string, bool) {
+		best, site, found := int64(0), "", false
+		for _, iff := range findIfs(fn, func(v ssa.Value) bool {
+			bo, ok := v.(*ssa.BinOp)
+			if !ok || (bo.Op != token.GTR && bo.Op != token.GEQ) || !lhs(bo.X) {
+				return false
+			}
+			_, isC := constIntOf(stripConv(bo.Y))
+			return isC
+		}) {
+			bo := iff.Cond.(*ssa.BinOp)
+			k, _ := constIntOf(stripConv(bo.Y))
+			if bo.Op == token.GEQ {
+				k--
+			}
+			if !found || k < best {
+				best, site, found = k, ifPos(w, iff), true
+			}
+		}
+		return best, site, found
+	}
+	if bld := c.F("p2p.buildCommitmentsMessage"); bld != nil {
+		bmax, bsite, okb := maxAdmitted(bld, Len(Param("commitments")))
+		pmax, psite, okp := maxAdmitted(f, Conv(Call("(encoding/binary.bigEndian).Uint16")))
+		if !okp {
+			pmax, psite, okp = maxAdmitted(f, Call("(encoding/binary.bigEndian).Uint16"))
+		}
+		c.Require(okb && okp && pmax >= bmax && bmax <= 65535, "sibling", "p2p|commitment count limit: parser admits what the builder emits",
+			"the largest pre-commitment count buildCommitmentsMessage emits (its panic bound) is admitted by parseNetworkMessage and fits the 16-bit count field",
+			fmt.Sprintf("builder admits up to %d (found=%v), parser admits up to %d (found=%v)", bmax, okb, pmax, okp), bsite, psite)
 	}
 	stm, _ := w.ConstVal("common", "SnapshotTransactionsMaximum")
 	c.Require(stm <= 255, "constfact", "p2p|bundle count byte", "the bundle count fits the single count byte", "SnapshotTransactionsMaximum = "+itoa(int(stm)))
